@@ -2,6 +2,7 @@
 import CelerVerif.Model.Csg
 import CelerVerif.Model.CsgLogic
 import CelerVerif.Model.CsgDeMorgan
+import CelerVerif.Model.CsgInfix
 import CelerVerif.Model.Util
 
 namespace CelerVerif.Csg
@@ -80,6 +81,17 @@ def parseTok (w : String) : Option Nat :=
   else match parseDec w with
     | some n => if n < maxSurface then some n else none
     | none => none
+
+/-- tokens of the explicit infix notation: the postfix tokens plus `(` and `)` -/
+def parseInfixTok (w : String) : Option Nat :=
+  if w = "(" then some lopen else if w = ")" then some lclose else parseTok w
+
+def parseInfixToks : List String → Option (List Nat)
+  | [] => some []
+  | w :: ws =>
+    match parseInfixTok w, parseInfixToks ws with
+    | some n, some ns => some (n :: ns)
+    | _, _ => none
 
 def parseToks : List String → Option (List Nat)
   | [] => some []
@@ -198,6 +210,10 @@ def driverStep (t : Tree) (line : String) : Tree × String :=
               | some true => "internal" | some false => "simple" | none => "undefined")
         else if op = "infix" then
           (t, match infixString t n with | some s => "str " ++ s | none => "undefined")
+        else if op = "infixof" then
+          (t, match infixOf t (t.size + 1) n with
+              | some lgc => "infix" ++ String.join (lgc.map fun v => " " ++ showTok v)
+              | none => "undefined")
         else (t, "bad-op")
       else (t, "bad-op")
   | [op, n, x] =>
@@ -214,6 +230,18 @@ def driverStep (t : Tree) (line : String) : Tree × String :=
                        | some b => tf b | none => "undefined")
             else (t, "bad-op")
           | none => (t, "bad-op")
+        else if op = "ttinfix" then
+          match parseDec x with
+          | some k =>
+            if k ≤ 12 then
+              match infixOf t (t.size + 1) n with
+              | some lgc =>
+                if infixWellFormed lgc maxSurface then
+                  (t, "tt " ++ truthTable k (fun σ => infixEval lgc σ))
+                else (t, "undefined")
+              | none => (t, "undefined")
+            else (t, "bad-op")
+          | none => (t, "bad-op")
         else if op = "tt" ∨ op = "ttpost" then
           match parseDec x with
           | some k =>
@@ -228,6 +256,17 @@ def driverStep (t : Tree) (line : String) : Tree × String :=
           | none => (t, "bad-op")
         else (t, "bad-op")
       else (t, "bad-op")
+  | "infixlogic" :: rest =>
+    let (toks, tail) := splitAtSemi rest
+    match parseInfixToks toks, tail with
+    | some lgc, [x] =>
+      match parseHex x with
+      | some bits =>
+        if infixWellFormed lgc maxSurface ∧ bits < 2 ^ 64 then
+          (t, s!"val {tf (infixEval lgc (sigmaOf bits))}")
+        else (t, "bad-op")
+      | none => (t, "bad-op")
+    | _, _ => (t, "bad-op")
   | "logic" :: rest =>
     let (toks, tail) := splitAtSemi rest
     match parseToks toks, tail with
